@@ -196,7 +196,7 @@ def main():
                 cases.append(c)
     for f in repaired_kf:
         for st in ("indexed", "linear"):
-            for r in range(3 if f.get("class") == "store" else 1):
+            for r in range(3 if f.get("class") in ("store", "lin") else 1):
                 c = json.loads(json.dumps(f["witness"]))
                 # a repaired memory/storage inversion is judged like any small history: results linearizable, final memory = final storage
                 c.update(state=st, cid="fixed:%s:%s:%d" % (f["id"], st, r), group=c.get("group", "facts" if f.get("class") == "store" else "witness"))
@@ -400,6 +400,28 @@ def main():
         if canon(vals) != canon(["v2"]):
             ck.violation("a rule was removed while an event that had found it was being processed, and added again after both had returned; the next event (started after AddRule returned) "
                          "ran %s instead of the stored rule's action [\"v2\"] (%s state)" % (canon(vals)[:120], c["state"]), {"case": c, "observed": r}, tag="readd")
+
+    # ---- (7c) the former finding C12-stale-rule-cache (repaired: the rule cache counts its invalidations): an event that starts after
+    # AddRule(v2) has returned runs v2, although an event that had found v1 was still being processed when v2 was written
+    for c in cases:
+        if not str(c.get("cid", "")).startswith("fixed:C12-stale-rule-cache"):
+            continue
+        r = results.get(c["cid"])
+        if not isinstance(r, dict) or "clients" not in r:
+            continue
+        try:
+            ev2, add = r["clients"][0][1], r["clients"][1][0]
+        except (IndexError, KeyError, TypeError):
+            continue
+        ck.count({"stale-cache": c["cid"]})
+        lin_stats["stale_cache_cases"] += 1
+        if not (add["res"] < ev2["inv"]) or add["out"].get("err"):
+            lin_stats["stale_cache_not_comparable"] += 1
+            continue
+        vals = ev2["out"].get("values")
+        if canon(vals) != canon(["v2"]):
+            ck.violation("an event that started after AddRule(v2) had returned ran %s: the rule that an overlapping event had read before the replacement was cached after it (%s state)" % (
+                canon(vals)[:120], c["state"]), {"case": c, "observed": r}, tag="stale-cache")
 
     # ---- (8) known findings: print once, only if reproduced in this run
     for f in kf:
